@@ -174,12 +174,16 @@ def run(ctx):
     ctx.cov.update({
         "evaluations": len(cases),
         "distinct_nontrivial": vlib.distinct_count([facts_of(c) for c in cases if c["alphabet"]]),
-        "rule": "generated requests of 7 kinds (put, named put, createV2 [+eACL], delete, setEACL, setAttribute, removeAttribute); witness = direct (public-key or N3 form) / garbage token / V1 token / V2 token "
-                "(plain or delegated), mostly valid with 0-2 mutations of issuer, verb, container, lifetime, signatures, validity; attributes from a pool with allowed and forbidden system keys; REP/EC/initial policy mixes; "
-                "eACL records with system-role targets and (in)consistent filters; distinct by the whole fact record, non-trivial = alphabet mode",
+        "rule": "generated requests of 7 kinds (put, named put, createV2 [+eACL], delete, setEACL, setAttribute, removeAttribute) processed by ONE processor instance over 4 users / 3 stored containers; "
+                "witness = direct (public-key or N3 form) / V1 token / V2 token (plain or delegated); each case is a fully valid request (random valid form) with 0 (30%), 1 (55%) or 2 (15%) named faults out of ~40 "
+                "(issuer, verb, container, lifetime bounds, signatures, token validity, forbidden / disabled system attributes, EC/REP/initial policy shapes, system-role target at any position, bad filters, "
+                "missing container, malformed IDs, non-alphabet, ...); 1 in 4 cases re-presents an approved request byte for byte under a changed epoch / time / alphabet state / flags; "
+                "distinct by the whole fact record, non-trivial = alphabet mode",
         "op_histogram": dict(collections.Counter("%s:%s" % (OPS[c["op"]], "approved" if c["approved"] else "rejected") for c in cases)),
         "witness_histogram": dict(collections.Counter("%s:%s" % (["direct", "garbage", "v1", "v2"][c["auth"]["tok"]], "approved" if c["approved"] else "rejected") for c in cases)),
         "approved": len(appr),
+        "fault_histogram": dict(collections.Counter("+".join(c.get("faults") or ["none"]) if len(c.get("faults") or []) < 2 else "two faults" for c in cases if not c.get("replayed"))),
+        "replayed_under_new_environment": sum(1 for c in cases if c.get("replayed")),
         "samples": [facts_and_obs(c) for c in (appr[:2] + [c for c in cases if not c["approved"]][:1])],
     })
 
